@@ -19,8 +19,9 @@ type cmEntry struct {
 }
 
 type cmBlock struct {
-	kind    string // codespacerange cidchar cidrange bfchar bfrange notdefchar notdefrange
-	entries []cmEntry
+	kind     string // codespacerange cidchar cidrange bfchar bfrange notdefchar notdefrange
+	entries  []cmEntry
+	declared int // when > 0: the count written before begin<kind> (an under-filled block)
 }
 
 type cmFile struct {
@@ -58,6 +59,9 @@ func (c *cmFile) render(r *rng, fault string) []byte {
 		}
 		if fault == "count101" && bi == 0 {
 			declared = 101
+		}
+		if b.declared > 0 {
+			declared = b.declared
 		}
 		fmt.Fprintf(&sb, "%d begin%s%s", declared, b.kind, ws())
 		for ei, e := range b.entries {
@@ -341,7 +345,87 @@ func cmapCase(o *suiteOut, line string) {
 	}
 }
 
+// cmapUnderfill: every block kind with a declared count n and k < n entries supplied, for the k around 0, n/2 and n
+// (the operators locate their operands by arithmetic on the declared count); the block must be rejected
+func cmapUnderfill(o *suiteOut) {
+	for _, kind := range []string{"codespacerange", "cidchar", "cidrange", "bfchar", "bfrange", "notdefchar", "notdefrange"} {
+		for _, n := range []int{1, 2, 3, 4, 5, 8, 100} {
+			ks := map[int]bool{}
+			for _, k := range []int{0, 1, n/3 - 1, n / 3, n/3 + 1, n/2 - 1, n / 2, n/2 + 1, 2 * n / 3, n - 2, n - 1} {
+				if k >= 0 && k < n {
+					ks[k] = true
+				}
+			}
+			for k := 0; k < n; k++ {
+				if !ks[k] {
+					continue
+				}
+				for _, lead := range []int{0, 1} { // with and without other operands below the block's on the stack
+					line := fmt.Sprintf("cmapunder %s %d %d %d", kind, n, k, lead)
+					c := &cmFile{name: "U", reg: "Adobe", ord: "Identity", tp: 1}
+					c.blocks = append(c.blocks, cmBlock{kind: "codespacerange", entries: []cmEntry{{a: []byte{0, 0}, b: []byte{0xff, 0xff}}}})
+					blk := cmBlock{kind: kind, declared: n}
+					for j := 0; j < k; j++ {
+						a := []byte{byte(j >> 8), byte(j)}
+						e := cmEntry{a: a, b: a, dst: fmt.Sprint(j), dobj: postscript.Integer(j)}
+						if kind == "bfchar" || kind == "bfrange" {
+							e.dst = "<0041>"
+						}
+						blk.entries = append(blk.entries, e)
+					}
+					c.blocks = append(c.blocks, blk)
+					data := c.render(newRng(1), "none")
+					if lead == 1 {
+						data = bytes.Replace(data, []byte("begincmap\n"), []byte("begincmap\n4 5 6 7 8 9\n"), 1)
+					}
+					_, err, pan := readCMapSafe(data)
+					if pan != "" {
+						o.fail("C01", "no panic in the CMap reader", line, "error value", pan)
+					} else if err == nil {
+						o.fail("C07", "a block declaring more entries than supplied is rejected with an error instead of being stored", line, "error", "accepted")
+					}
+					res, _, _ := runProgram(1000000, false, data)
+					o.emit(runCaseLine(1000000, false, string(data)), res, true)
+					o.count("under-filled blocks (kind x declared x supplied)")
+				}
+			}
+		}
+	}
+}
+
+// cmapBigArray: a block at the limits the property quantifies over: 100 bfrange entries, the last one mapping a
+// range of 256 codes to an array of 256 strings (556 operands are on the stack when endbfrange runs)
+func cmapBigArray(o *suiteOut) {
+	c := &cmFile{name: "B", reg: "Adobe", ord: "Identity", tp: 2}
+	c.blocks = append(c.blocks, cmBlock{kind: "codespacerange", entries: []cmEntry{{a: []byte{0, 0}, b: []byte{0xff, 0xff}}}})
+	blk := cmBlock{kind: "bfrange"}
+	for j := 0; j < 99; j++ {
+		blk.entries = append(blk.entries, cmEntry{a: []byte{byte(j), 0}, b: []byte{byte(j), 0xff}, dst: "<4E00>"})
+	}
+	var sb strings.Builder
+	sb.WriteString("[")
+	for j := 0; j < 256; j++ {
+		fmt.Fprintf(&sb, " <%04x>", 0x5000+j)
+	}
+	sb.WriteString(" ]")
+	blk.entries = append(blk.entries, cmEntry{a: []byte{0x70, 0}, b: []byte{0x70, 0xff}, dst: sb.String()})
+	c.blocks = append(c.blocks, blk)
+	data := c.render(newRng(1), "none")
+	_, err, pan := readCMapSafe(data)
+	line := "cmapbigarray 100 256"
+	if pan != "" {
+		o.fail("C01", "no panic in the CMap reader", line, "error value", pan)
+	} else if err != nil {
+		o.fail("C07", "a CMap file in the standard form is accepted (100 bfrange entries, one with an array of 256 strings)", line, "dictionary", err.Error())
+	}
+	res, _, _ := runProgram(1000000, false, data)
+	o.emit(runCaseLine(1000000, false, string(data)), res, true)
+	o.count("block at the limits (100 entries, 256-element array)")
+}
+
 func suiteCMap(o *suiteOut, r *rng, tier string, n int) {
+	cmapUnderfill(o)
+	cmapBigArray(o)
 	for _, l := range corpusLines("cmap") {
 		cmapCase(o, l)
 		o.count("corpus cases")
